@@ -223,6 +223,8 @@ class Sim:
             # directory order cannot change what is installed
             self.m.add_resource(self.res[n]['lexicons'])
             self.probe('collection-package')
+        if op.get('siblings'):
+            self.sync_order()
         if todo:
             self.probe('add-installs')
         else:
@@ -323,6 +325,19 @@ class Sim:
         self.check_fresh()
 
     # -- oracles -----------------------------------------------------------------------------
+    def sync_order(self):
+        """The packages of a collection are added in directory order, which the OS (here:
+        the seeded iterdir shim) decides: take the *order* of the installed list from the
+        store (the set itself is checked by the 'installed' oracle)."""
+        conn = observe.observer(self.W.dbpath())
+        try:
+            order = ['%s:%s' % (r[0], r[1]) for r in conn.execute(
+                'SELECT id, version FROM lexicons ORDER BY rowid')]
+        finally:
+            conn.close()
+        if sorted(order) == sorted(self.m.installed):
+            self.m.installed = order
+
     def reconcile(self, op, last):
         """After a faulted op the model is a no-op - or, for the per-lexicon transactions of
         a multi-match removal, the prefix state the observation shows."""
@@ -351,6 +366,7 @@ class Sim:
                         mm.add_resource(self.res[n]['lexicons'])
                     if sorted(mm.installed) == got and (k < len(names) or True):
                         self.m = mm
+                        self.sync_order()
                         self.probe('faulted-collection-prefix-state')
                         return
         m3 = self.m.copy()
